@@ -75,6 +75,11 @@ Definition hht_newmark_A (x : Vec) : Vec :=
 Definition hht_newmark_lhs (x : Vec) : Vec :=
   vadd (vadd (K (G hht_newmark_ev_ut x)) (C (G hht_newmark_ev_vt x))) (M (G hht_newmark_ev_at x)).
 
+(* the matrix assembled in _Solver_Apply_Dirichlet (generated hht_newmark_sysop) is this weighted sum *)
+Theorem hht_newmark_sysop_is_weighted_sum : forall x y i,
+  (G hht_newmark_sysop y) x i = hht_newmark_A x i.
+Proof. unfold hht_newmark_A; vf. Qed.
+
 (* row i of the system minus row i of the right-hand side of _Solver_Apply_Neumann
    = residual of the equation of motion at dof i *)
 Theorem hht_newmark_eom_identity : forall x i,
@@ -99,6 +104,19 @@ Proof.
   pose proof (hht_newmark_eom_identity (vadd y d) i). lra.
 Qed.
 
+(* the statement of the property in terms of what one step RETURNS: the new state (u,v,a)^{n+1} makes
+   K u_t + C v_t + M a_t equal the load at the documented evaluation points, on every solved (free) dof *)
+Theorem hht_newmark_step_correct : forall x i,
+  hht_newmark_A x i = G hht_newmark_rhs x i ->
+  K (hht_point alpha (G hht_newmark_up_u x) u_n) i + C (G hht_newmark_up_v x) i + M (G hht_newmark_up_a x) i = bN i + F i.
+Proof using All.
+  intros x i H. pose proof (hht_newmark_discrete_eom x i H) as E. unfold hht_newmark_lhs, vadd in E.
+  assert (E1 : hht_point alpha (G hht_newmark_up_u x) u_n = G hht_newmark_ev_ut x) by (extensionality j; symmetry; apply hht_newmark_eval_consistent).
+  assert (E2 : G hht_newmark_up_v x = G hht_newmark_ev_vt x) by (extensionality j; symmetry; apply hht_newmark_eval_consistent).
+  assert (E3 : G hht_newmark_up_a x = G hht_newmark_ev_at x) by (extensionality j; symmetry; apply hht_newmark_eval_consistent).
+  rewrite E1, E2, E3. lra.
+Qed.
+
 End S_hht_newmark.
 
 Print Assumptions hht_newmark_params.
@@ -106,6 +124,8 @@ Print Assumptions hht_newmark_update_rule.
 Print Assumptions hht_newmark_update_displacement.
 Print Assumptions hht_newmark_eval_consistent.
 Print Assumptions hht_newmark_coefs_are_derivatives.
+Print Assumptions hht_newmark_sysop_is_weighted_sum.
 Print Assumptions hht_newmark_eom_identity.
 Print Assumptions hht_newmark_discrete_eom.
 Print Assumptions hht_newmark_newton_consistent.
+Print Assumptions hht_newmark_step_correct.
